@@ -197,7 +197,7 @@ worker id — or its own result tick is the (only) tick in the buffer, about to 
 `StopEvent` result is in the buffer (the runner has cancelled all tasks; the next reduction ends the
 run, `C02_stop_result_ends_run`).  A row is never a stale mark. -/
 theorem C03_in_progress_is_live (cfg : Cfg) (hwf : cfg.WF) (pol : Policy) (st0 : State)
-    (h0 : IdsInv cfg st0) (now : Int) (start : Option Ev) (timeout : Option Nat) (acts : List Act)
+    (now : Int) (start : Option Ev) (timeout : Option Nat) (acts : List Act)
     (hlive : (C03.runFrom cfg pol st0 now start timeout acts).outcome = none) :
     ∀ c ∈ cfg.steps, ∀ ip ∈ ((C03.runFrom cfg pol st0 now start timeout acts).st.workers c.name).inProg,
       (∃ x ∈ (C03.runFrom cfg pol st0 now start timeout acts).running, x.step = c.name ∧ x.wid = ip.wid) ∨
@@ -205,14 +205,14 @@ theorem C03_in_progress_is_live (cfg : Cfg) (hwf : cfg.WF) (pol : Policy) (st0 :
       (∃ s w ev res, (C03.runFrom cfg pol st0 now start timeout acts).buf = [.stepResult s w ev res] ∧
         hasStopResult res = true) := by
   intro c hc ip hip
-  exact (reach_c03Inv cfg hwf pol st0 h0 now start timeout acts).live hlive c.name
+  exact (reach_c03Inv cfg hwf pol st0 now start timeout acts).live hlive c.name
     (List.mem_map_of_mem hc) ip hip
 
 /-- **Queued work runs at the full worker limit, for real**: whenever the loop is waiting (empty
 buffer: the only states in which time passes) and a step has queued events, exactly `num_workers`
 worker tasks of that step are alive. -/
 theorem C03_full_limit_live (cfg : Cfg) (hwf : cfg.WF) (pol : Policy) (st0 : State)
-    (h0 : IdsInv cfg st0) (now : Int) (start : Option Ev) (timeout : Option Nat) (acts : List Act)
+    (now : Int) (start : Option Ev) (timeout : Option Nat) (acts : List Act)
     (hlive : (C03.runFrom cfg pol st0 now start timeout acts).outcome = none)
     (hwait : (C03.runFrom cfg pol st0 now start timeout acts).buf = []) :
     ∀ c ∈ cfg.steps,
@@ -220,7 +220,7 @@ theorem C03_full_limit_live (cfg : Cfg) (hwf : cfg.WF) (pol : Policy) (st0 : Sta
         ((C03.runFrom cfg pol st0 now start timeout acts).running.filter (fun w => w.step == c.name)).length
           = c.numWorkers := by
   intro c hc hne
-  have hI := reach_c03Inv cfg hwf pol st0 h0 now start timeout acts
+  have hI := reach_c03Inv cfg hwf pol st0 now start timeout acts
   have hcount := C03_work_conserving_runner cfg hwf pol st0 now start timeout acts hlive c hc hne
   unfold C03.runFrom at hlive hwait hne hcount ⊢
   generalize Runner.run cfg pol (Runner.init cfg st0 now start timeout) acts = r at *
@@ -251,13 +251,13 @@ exactly when a `TickIdleCheck` is in the tick buffer; there is at most one, it i
 the buffer (everything buffered is reduced before it), and neither the timer heap nor the mailbox
 ever holds one. -/
 theorem C03_idle_check_exact (cfg : Cfg) (hwf : cfg.WF) (pol : Policy) (st0 : State)
-    (h0 : IdsInv cfg st0) (now : Int) (start : Option Ev) (timeout : Option Nat) (acts : List Act) :
+    (now : Int) (start : Option Ev) (timeout : Option Nat) (acts : List Act) :
     let r := C03.runFrom cfg pol st0 now start timeout acts
     (r.idlePending = true ↔ Tick.idleCheck ∈ r.buf) ∧ r.buf.count .idleCheck ≤ 1 ∧
       (∀ pre post, r.buf = pre ++ Tick.idleCheck :: post → post = []) ∧
       (∀ tm ∈ r.heap, tm.tick ≠ .idleCheck) ∧ (∀ t ∈ r.mailbox, t ≠ .idleCheck) := by
   intro r
-  have hI := (reach_c03Inv cfg hwf pol st0 h0 now start timeout acts).idle
+  have hI := (reach_c03Inv cfg hwf pol st0 now start timeout acts).idle
   refine ⟨?_, ?_, ?_, fun tm htm => isTimerKind_ne_idleCheck (hI.heap tm htm),
     fun t ht => isExternal_ne_idleCheck (hI.mbox t ht)⟩
   · rcases hI.form with ⟨hp, hn⟩ | ⟨hp, pre, hb, hn⟩
@@ -314,7 +314,7 @@ What may still be pending is therefore confined to the timer heap and the mailbo
 `UnhandledEvent(idle=True)`, the rest of the batch the unhandled event arrived in) — see
 `C03_idle_exceptions_exact`. -/
 theorem C03_idle_runner_sound (cfg : Cfg) (hwf : cfg.WF) (pol : Policy) (st0 : State)
-    (h0 : IdsInv cfg st0) (now : Int) (start : Option Ev) (timeout : Option Nat) (acts : List Act)
+    (now : Int) (start : Option Ev) (timeout : Option Nat) (acts : List Act)
     (a : Act) (ha : ∀ p, a = .stepWrite p → p.isIdleAnn = false) (new : List Pub)
     (hnew : ((C03.runFrom cfg pol st0 now start timeout acts).step cfg pol a).stream
       = (C03.runFrom cfg pol st0 now start timeout acts).stream ++ new)
@@ -329,7 +329,7 @@ theorem C03_idle_runner_sound (cfg : Cfg) (hwf : cfg.WF) (pol : Policy) (st0 : S
     (∀ t ∈ r'.buf, t.isStepResult = false) ∧
     (Pub.idle ∈ new → r'.buf = [] ∧ r'.idlePending = false) := by
   intro r r'
-  have hI : C03Inv cfg r := reach_c03Inv cfg hwf pol st0 h0 now start timeout acts
+  have hI : C03Inv cfg r := reach_c03Inv cfg hwf pol st0 now start timeout acts
   have hI' : C03Inv cfg r' := step_c03Inv cfg hwf pol r a hI
   have hne : new ≠ [] := by intro h; rw [h] at hidle; cases hidle
   rcases step_stream cfg pol r a with hs | ⟨p, rfl, hs⟩ | ⟨t, rest, rfl, ho, hb, hc, he⟩
@@ -405,7 +405,7 @@ or an event already sent to the run waits in the mailbox (known finding
 task is alive, queues and in-progress tables are empty (`C03_idle_runner_sound`); the heap holds only
 delayed retries, waiter timeouts and the run's timeout, the mailbox only what another party put. -/
 theorem C03_idle_exceptions_exact (cfg : Cfg) (hwf : cfg.WF) (pol : Policy) (st0 : State)
-    (h0 : IdsInv cfg st0) (now : Int) (start : Option Ev) (timeout : Option Nat) (acts : List Act)
+    (now : Int) (start : Option Ev) (timeout : Option Nat) (acts : List Act)
     (a : Act) (ha : ∀ p, a = .stepWrite p → p.isIdleAnn = false) (new : List Pub)
     (hnew : ((C03.runFrom cfg pol st0 now start timeout acts).step cfg pol a).stream
       = (C03.runFrom cfg pol st0 now start timeout acts).stream ++ new)
@@ -417,9 +417,9 @@ theorem C03_idle_exceptions_exact (cfg : Cfg) (hwf : cfg.WF) (pol : Policy) (st0
   intro r'
   have hany : new.any Pub.isIdleAnn = true := List.any_eq_true.mpr ⟨_, hidle, rfl⟩
   obtain ⟨_, _, _, _, _, _, hb⟩ :=
-    C03_idle_runner_sound cfg hwf pol st0 h0 now start timeout acts a ha new hnew hany
+    C03_idle_runner_sound cfg hwf pol st0 now start timeout acts a ha new hnew hany
   have hbuf : r'.buf = [] := (hb hidle).1
-  have hI' : C03Inv cfg r' := step_c03Inv cfg hwf pol _ a (reach_c03Inv cfg hwf pol st0 h0 now start timeout acts)
+  have hI' : C03Inv cfg r' := step_c03Inv cfg hwf pol _ a (reach_c03Inv cfg hwf pol st0 now start timeout acts)
   refine ⟨?_, hI'.idle.heap, hI'.idle.mbox⟩
   simp only [C03.TrulyIdle, hbuf, List.any_nil, Bool.not_false, Bool.and_true]
   cases h1 : r'.heap.any (fun t => C03.isAddEvent t.tick) <;> cases h2 : r'.mailbox.any C03.isAddEvent <;> simp
@@ -429,7 +429,7 @@ and an empty mailbox, whatever the loop tries on its own (drain, pull, timer, a 
 time passing — everything but an external `send_event`) changes nothing but the clock: only new
 external input can make anything happen. -/
 theorem C03_truly_idle_is_quiescent (cfg : Cfg) (hwf : cfg.WF) (pol : Policy) (st0 : State)
-    (h0 : IdsInv cfg st0) (now : Int) (start : Option Ev) (timeout : Option Nat) (acts : List Act)
+    (now : Int) (start : Option Ev) (timeout : Option Nat) (acts : List Act)
     (a : Act) (ha : ∀ p, a = .stepWrite p → p.isIdleAnn = false) (new : List Pub)
     (hnew : ((C03.runFrom cfg pol st0 now start timeout acts).step cfg pol a).stream
       = (C03.runFrom cfg pol st0 now start timeout acts).stream ++ new)
@@ -439,7 +439,7 @@ theorem C03_truly_idle_is_quiescent (cfg : Cfg) (hwf : cfg.WF) (pol : Policy) (s
   intro r' hh hm
   have hany : new.any Pub.isIdleAnn = true := List.any_eq_true.mpr ⟨_, hidle, rfl⟩
   obtain ⟨_, _, _, hrun, _, _, hb⟩ :=
-    C03_idle_runner_sound cfg hwf pol st0 h0 now start timeout acts a ha new hnew hany
+    C03_idle_runner_sound cfg hwf pol st0 now start timeout acts a ha new hnew hany
   exact run_quiescent cfg pol more r' hint (hb hidle).1 hrun hh hm
 
 /-! Non-vacuity of the runner-level theorems -/
